@@ -495,6 +495,16 @@ impl<T> Block for NoCopyFileSink<T>""")]),
          edits=[E("src/tcp_source.rs", "            return Ok(BlockRet::EOF);", "            return Ok(BlockRet::Again);")]),
     dict(name="sw-c08-fill-deleted", prop="C08", expect="C08.R4:<file_source::FileSource as block::Block>::work:produce",
          edits=[E("src/file_source.rs", "        o.fill_from_iter(v);", "        drop(v);")]),
+    dict(name="sw-c09-wait-on-len-eq-1", prop="C09", expect="C09.R3:<file_sink::FileSink as block::Block>::work:wait(src)",
+         edits=[E("src/file_sink.rs", "        let n = i.len();\n        if n == 0 {", "        let n = i.len();\n        if n == 1 {")]),
+    dict(name="sw-c15-have-in-wrong-unit", prop="C15", expect="C15.D3:<file_source::FileSource as block::Block>::work|slice:drain",
+         edits=[E("src/file_source.rs", "        }\n\n        let have = self.buf.len() / sample_size;", "        }\n\n        let have = self.buf.len() * sample_size;")]),
+    dict(name="sw-c08-produce-deleted", prop="C08", expect="C08.R8:<file_source::FileSource as block::Block>::work:fill",
+         edits=[E("src/file_source.rs", "        trace!(\"FileSource: Produced {}\", n);\n        o.produce(n, &[]);", "        trace!(\"FileSource: Produced {}\", n);")]),
+    dict(name="sw-c06-done-starts-false", prop="C06", expect="C06.R5:<graph::Graph as graph::GraphRunner>::run:settled-pass-ends",
+         edits=[E("src/graph.rs", "            let mut done = true;", "            let mut done = false;")]),
+    dict(name="sw-c07-first-err-condition-negated", prop="C07", expect="C07.R6:<mtgraph::MTGraph as graph::GraphRunner>::run:expect:kept",
+         edits=[E("src/mtgraph.rs", "                    if first_err.is_none() {", "                    if !first_err.is_none() {")]),
     # ---------------- round-2 seeds as mutants
     dict(name="c02-tag-key-no-modulo", prop="C02", expect="C02.R5:circular_buffer::Buffer::produce:entry:key",
          edits=[E("src/circular_buffer.rs", "            let pos = (tag.pos() + s.wpos) % s.capacity();", "            let pos = tag.pos() + s.wpos;")]),
